@@ -287,7 +287,12 @@ def gen_term_case(r, idx, wild=False, nops=None, kinds=None):
     else:
         if long and not wild:
             # never told a size: a move, a long line, a move to where the cursor must be
-            lines.append("T 0 move %d %d" % (r.pick([0, 0, 3]), r.below(3)))
+            x0, y0 = r.pick([0, 0, 3]), r.below(3)
+            lines.append("T 0 move %d %d" % (x0, y0))
+            m0 = r.pick([76, 77, 79, 80, 81, 131, 132, 133, 255, 256])
+            a0 = wf_attr(r)
+            lines.append("T 0 str %d %s" % (m0, " ".join(el((5, r.rng(33, 126), 0, 0), a0) for _ in range(m0))))
+            lines.append("T 0 move %d %d" % (x0 + m0, y0))
         w, h = 0, 0
     es = ElemSource(r, wild, ctl=not wild)
     cur = None
@@ -1275,6 +1280,36 @@ def gen_strobj_case(r, idx):
                 lines.append("Z %d heldset %d %s" % (t2, r.below(2), an_elem()))
                 for i in sorted(size):
                     lines.append("Z %d dump" % i)
+    lines.append("END")
+    return lines
+
+
+def gen_shared_manip_case(r, idx):
+    """manipulator objects made once and streamed to several terminals whose declared
+    behaviours differ (one title object for every connection, one cursor-home object, ...)"""
+    lines = ["CASE %d" % idx]
+    nt = r.rng(2, 3)
+    masks = [beh_mask(r)]
+    for j in range(1, nt):
+        masks.append(masks[0] ^ (1 << r.pick([7, 8, 9, 9, 10, 10, 11])) if r.chance(2, 3) else r.below(128) | (r.below(32) << 7))
+    for j in range(nt):
+        lines.append("T %d new %d" % (j, masks[j]))
+        lines.append("T %d size %d %d" % (j, r.rng(2, 9), r.rng(2, 5)))
+    objs = []
+    for o in range(r.rng(1, 3)):
+        t = [r.rng(0x20, 0x7E) for _ in range(r.below(6))]
+        objs.append(o)
+        lines.append("O %d %s" % (o, r.pick(["title " + hexs(t), "title " + hexs(t), "move %d %d" % (r.below(2), r.below(2)), "hide", "show",
+                                             "mouse 1", "mouse 0", "erase"])))
+    for _ in range(r.rng(3, 10)):
+        j = r.below(nt)
+        k = r.below(5)
+        if k < 3:
+            lines.append("T %d use %d" % (j, r.pick(objs)))
+        elif k == 3:
+            lines.append("T %d elem %s" % (j, el(wf_glyph(r), wf_attr(r))))
+        else:
+            lines.append("T %d %s" % (j, r.pick(["hide", "show", "mouse 1", "mouse 0", "title 6162", "buf 1", "buf 0"])))
     lines.append("END")
     return lines
 
